@@ -349,16 +349,42 @@ def judge(sim: C01Sim) -> None:
                         f"op {o['idx']}: payload for port {o['op']['dport']} reached handler of port {x['port']} on station {x['st']}")
             continue
         rank = {"expected": 0, "noverdict": 1, "forbidden": 2, "self": 3}
+        # which BTP header and traffic class the frame behind this indication carried (read from the wire, reference parser)
+        wire_btp = wire_tc = None
+        c_ = x.get("cause")
+        if isinstance(c_, tuple) and len(c_) == 2 and c_[0] == "rx" and isinstance(c_[1], int) and c_[1] < len(hist.rx):
+            try:
+                pw = rc.parse_packet(hist.rx[c_[1]]["frame"])
+                if "secured" not in pw:
+                    wire_btp = {1: "a", 2: "b"}.get(pw["common"]["nh"])
+                    wire_tc = pw["common"]["tc"]
+            except rc.Malformed:
+                pass
+
         def meta_ok(o):
+            if wire_btp is not None and o["op"]["btp"] != wire_btp:
+                return False
             if o["op"]["btp"] == "a":
                 return x["ind"].source_port == o["op"].get("sport", 0)
             return x["ind"].destination_port_info == o["op"].get("dpinfo", 0)
-        ported.sort(key=lambda o: (not meta_ok(o), len(o["got"].get(x["st"], [])) > 0, rank[o["cls"].get(x["st"], "forbidden")], o["idx"]))
+        ported.sort(key=lambda o: (not meta_ok(o), wire_tc is not None and o["op"].get("tc", 0) != wire_tc,
+                                   len(o["got"].get(x["st"], [])) > 0, rank[o["cls"].get(x["st"], "forbidden")], o["idx"]))
         o = ported[0]
         o["got"].setdefault(x["st"], []).append(x)
         x["req"] = o["idx"]
+    # requests of one sender with the same payload for the same port cannot be told apart at a receiver (a copy of one of them may
+    # legitimately arrive again after the duplicate window moved on, one of them may legitimately never be sent): no verdict on them
+    by_body: dict[tuple, list] = {}
+    for o in live:
+        by_body.setdefault((o["op"]["st"], o["op"]["dport"], o["payload"]), []).append(o["idx"])
+    twins = {i for lst in by_body.values() if len(lst) > 1 for i in lst}
+    if twins:
+        sim.probe("verdict-skipped-identical-requests", len(twins))
     # ---- phase 3: judge every (request, receiver)
     for o in live:
+        if o["idx"] in twins:
+            o["outcome"] = "t"
+            continue
         op, typ, key_base = o["op"], o["op"]["type"], o["key_base"]
         scf = bool(op.get("tc", 0) & 0x80)
         outcome = []
